@@ -384,6 +384,7 @@ fn data() -> impl Strategy<Value = Vec<u8>> {
     prop_oneof![
         3 => prop::collection::vec(prop::sample::select(&b"ab \n"[..]), 0..8),
         2 => "[a-c é日😀\n]{0,8}".prop_map(|s| s.into_bytes()),
+        1 => "\u{feff}[a-c\n]{0,6}".prop_map(|s| s.into_bytes()),
         2 => prop::collection::vec(prop::sample::select(&[0xffu8, 0xc3, 0xa9, b'\r', b'\n', 0, b'z'][..]), 0..10),
         1 => prop::collection::vec(any::<u8>(), 0..64),
         1 => (1usize..17).prop_map(|k| (0..k * 1024).map(|i| (i % 251) as u8).collect()),
@@ -403,6 +404,7 @@ fn data() -> impl Strategy<Value = Vec<u8>> {
 fn line() -> impl Strategy<Value = String> {
     prop_oneof![
         5 => "[a-c é日]{1,6}",
+        1 => "\u{feff}[a-c é]{0,4}",
         1 => Just(String::new()),
         1 => "[ab]{0,3}\n[ab]{0,2}",
         1 => "[ab]{1,3}\n",
